@@ -48,7 +48,8 @@ class C10(Prop):
             '(its addSkip raises for binary reasons). thorough adds every sequence of length <= 4 over a '
             '14-event alphabet (2 ids, 2 routes, interim/final/file/tag events). non-trivial = at least 2 events with a test id and '
             '(a key with >= 2 lifetimes, or an open lifetime, or a multi-chunk attachment); distinct = distinct input S-expression')
-    assumptions = ['content types are opaque tokens: parsing of mime strings (_make_content_type / email) belongs to C16',
+    assumptions = ['translator tie (harness/pystream.py): _update_case is symbolically executed, status/_ensure_key/stopTestRun and the StreamToDict/StreamToExtendedDecorator wrappers are matched statement by statement on every run; trusted: the translator, the record primitives set/got_timestamp/got_file/create and the reading of the recognised forms by TTV/Model/ConsumerSrc.lean',
+                   'content types are opaque tokens: parsing of mime strings (_make_content_type / email) belongs to C16',
 
                    'text-typed attachments carry bytes valid in their charset (StreamSummary formats failed tests\' details and would raise UnicodeDecodeError otherwise; noted in DESIGN section 0)',
                    'consumer faults are exceptions raised by the callback after it recorded the hand-over; the driver catches them and calls stopTestRun again until it returns normally (what the unchanged code needs in order to report the records still in its table after an exception inside the stopTestRun loop)',
@@ -72,7 +73,10 @@ class C10(Prop):
     }
 
     def extract_tables(self, repo):
-        return S.extract_tables(repo)
+        from harness import pystream
+        out = dict(S.extract_tables(repo))
+        out.update(pystream.generate_consumer(repo))     # the consumers' decision logic, translated from the source
+        return out
 
     # ----- implementation side
     def drive(self, consumer, run_events, kwargs_list, skip_exists=False):
